@@ -569,6 +569,30 @@ func shortCase(c *Ctx, durTicks int64) *hcase {
 	return k
 }
 
+// mixedShortCase: fragment length 0 with GOPs of mixed length — some below 100 ms (their segment
+// is dropped and its number reused), most around a second — with a playlist query after every
+// GOP: the numbering of the kept segments must stay consecutive across a dropped one.
+func mixedShortCase(c *Ctx) *hcase {
+	k := &hcase{frag: 0, rate: 8000, path: "/s", tag: "frag0-mixed-short-segments"}
+	k.sps, k.pps = []byte{0x67, 0x42}, []byte{0x68, 0xce}
+	k.ascraw = aac.Encode2BytesASC(2, 11, 1)
+	t := int64(0)
+	n := 8 + c.Rng.Intn(8)
+	for i := 0; i < n; i++ {
+		dur := int64(60000 + c.Rng.Intn(90000))
+		if i >= 2 && c.Rng.Chance(30) {
+			dur = int64(900 + c.Rng.Intn(7000)) // 10 … 88 ms
+		}
+		k.evs = append(k.evs, event{kind: 'v', dts: nsOfTicks(t), pts: nsOfTicks(t), payload: genNal(c, 5, 6)})
+		k.evs = append(k.evs, event{kind: 'v', dts: nsOfTicks(t + dur/2), pts: nsOfTicks(t + dur/2), payload: genNal(c, 1, 6)})
+		t += dur
+		k.evs = append(k.evs, event{kind: 'Q'})
+	}
+	k.evs = append(k.evs, event{kind: 'v', dts: nsOfTicks(t), pts: nsOfTicks(t), payload: genNal(c, 5, 6)})
+	k.evs = append(k.evs, event{kind: 'Q'})
+	return k
+}
+
 // ---------- run ----------
 
 func run(c *Ctx) {
@@ -588,6 +612,9 @@ func run(c *Ctx) {
 		}
 		for _, d := range []int64{8998, 8999, 9000, 9001, 4500, 1} {
 			cases = append(cases, shortCase(c, d))
+		}
+		for i := 0; i < c.Budget(12, 120); i++ {
+			cases = append(cases, mixedShortCase(c))
 		}
 		n := c.Budget(300, 6000)
 		for i := 0; i < n; i++ {
@@ -674,8 +701,15 @@ func run(c *Ctx) {
 			c.Count("impl-panic")
 		}
 		if k.frag < 1 {
-			c.Count("oracle-out-of-domain(frag<1)")
-			continue
+			// fragment length 0 is below what the configuration allows: frames may be lost there
+			// (c10_short_segment_dropped_when_frag_zero), so the frame-accounting clauses are out of
+			// domain — but the playlist and segment-format clauses of the property hold for every
+			// fragment length (sub-100 ms fragments are in the property's quantifier)
+			c.Count("oracle-frame-accounting-out-of-domain(frag<1)")
+			spec := m["spec"]
+			if !(strings.HasPrefix(spec, "fail:playlist-") || strings.HasPrefix(spec, "fail:segment-")) {
+				continue
+			}
 		}
 		if spec := m["spec"]; spec != "ok" && spec != "skip" {
 			c.Find(Finding{Kind: "oracle", Class: strings.TrimPrefix(spec, "fail:"), Case: in, Impl: implDesc, Spec: spec, Model: m["model"]})
